@@ -108,8 +108,13 @@ pub fn serialize(cell: &A5Cell) -> Result<u64, String> {
         resolution,
     } = cell;
 
-    if *resolution > MAX_RESOLUTION {
+    // The layout holds at most MAX_RESOLUTION - 1 levels: the marker of a deeper cell would fall off the word
+    if *resolution >= MAX_RESOLUTION {
         return Err(format!("Resolution ({}) is too large", resolution));
+    }
+
+    if *resolution < -1 {
+        return Err(format!("Resolution ({}) is too small", resolution));
     }
 
     if *resolution == -1 {
